@@ -8,7 +8,7 @@ Direct predicates on every generated case: loader generation never raises; gener
 no unbound positional variable; fromdict(asdict(x)) == x and from_json(to_json(x)) == x with
 equal concrete types.
 """
-import json, itertools, decimal, os
+import json, itertools, decimal, os, copy
 from props import c02gen as G
 from props.c02gen import leaf, seq, tup, dct, opt, optr, union, lit, named, typed, data
 
@@ -17,19 +17,27 @@ META = {
     'title': 'Dump-then-load is the identity (v1 engine); loader generation never fails',
     'level': 'proof',
     'technique': ('Coq proof (mutual induction over the type grammar, step-indexed compiler correctness for the '
-                  'generated code incl. helper functions and recursive classes) on a hand-written Gallina model of '
-                  'the v1 code generator + differential correspondence with the implementation (outcomes and binding '
-                  'summaries of generated functions via hook H1)'),
+                  'generated code incl. helper functions and recursive classes; induction over the resolution walk of '
+                  'multi-module surface programs) on a hand-written Gallina model of the v1 code generator and of its '
+                  'annotation-resolution front end + differential correspondence with the implementation (outcomes and '
+                  'binding summaries of generated functions via hook H1; one- and two-module programs written as real modules)'),
     'design_ref': 'DESIGN.md section 4 C02',
     'theorems': ['C02_gen_total', 'C02_gen_main_total', 'C02_gen_sound', 'C02_gen_sound_coherent', 'C02_gen_expr_sound',
-                 'C02_roundtrip_partial', 'C02_roundtrip_code_partial', 'C02_refuted_F9'],
+                 'C02_roundtrip_partial', 'C02_roundtrip_code_partial', 'C02_refuted_F9',
+                 'C02_resolve_total_partial', 'C02_denote_sound', 'C02_nested_own_namespace', 'C02_walk_own_namespace',
+                 'C02_surface_gen_total_partial', 'C02_surface_class_denotes', 'C02_surface_sound', 'C02_resolve_refuted'],
     'tables': [],
     'level_text': ('Proved in Coq for ALL class tables over the model grammar, all positions (TypeInfo), all documents and '
                    'all budgets: (a) every supported annotation generates; (b) the generated program equals the semantic '
                    'specification load_v1 whenever the final generator state passes two decidable checks (coherent, '
                    'region_ok) (c) load_v1 '
-                   'inverts the dumper on conforming values (leaf laws as hypotheses). The model is re-validated against '
-                   'the implementation on every run.'),
+                   'inverts the dumper on conforming values (leaf laws as hypotheses); (d) for ALL surface programs (any number '
+                   'of modules, classes, NamedTuples, TypedDicts, `type` aliases; annotations with Annotated / Required / '
+                   'NotRequired / ReadOnly / aliases / quoted names in any nesting, at any depth) inside the decidable region '
+                   'okb, resolution succeeds and yields the type the annotation denotes irrespective of the nesting order, every '
+                   'nested dataclass is resolved in its OWN module whatever the root / path / depth, and resolution + code '
+                   'generation never fails; outside okb the pinned code fails on annotations that denote a type '
+                   '(C02_resolve_refuted, finding F70). The model is re-validated against the implementation on every run.'),
     'level_note': ('Trusted: Coq kernel + vm_compute; the hand-written model of v1/loaders.py, v1/decorators.py, '
                    'v1/models.py (statement skeletons of helper functions are shared between evaluator and specification; '
                    'the position-dependent expressions are what is proved); leaf conversions are an oracle (the library\'s '
@@ -38,18 +46,33 @@ META = {
              '(rotating leaf), a sample of depth-3 compositions, random models, recursive / mutually recursive classes, '
              'key cases (as-is, explicit, AUTO x every dump transform) with canonical AND mixedCase / digit / upper-run field names; '
              'Unions and Literals as members of sibling NamedTuple / TypedDict / dataclass types within one field and below '
-             'field-level Unions; Union[None, T]; one to three conforming instances each. '
+             'field-level Unions; Union[None, T]; one to three conforming instances each; SURFACE programs: every wrapper stack '
+             '(Annotated, Required, NotRequired, ReadOnly, `type` alias, quoted name) of length <= 2 and a sample (thorough: all) '
+             'of length 3 x base type x position (field, list / dict / Optional / tuple argument, NamedTuple field, TypedDict '
+             'required / optional key, nested dataclass field), as one module and as two modules (the program in a lower module, '
+             'nested below a root of an upper module that does not bind its names); every third case with a nested class is split '
+             'into two modules with every dataclass reference of the lower module a quoted name inside its generic (module '
+             'imported as a module only / names imported / typing generics); the recursive JSON alias at a field, in containers, '
+             'under Annotated and under Required / NotRequired. '
              'A case is non-trivial when the field annotation has depth >= 2 or uses a helper-compiled type; '
              'distinct = distinct (annotation, key case) / distinct document.'),
     'trusted_base': ['model coq/model/V1Gen.v transcribes get_string_for_annotation and setup_recursive_safe_function',
+                     'model coq/model/V1Annot.v transcribes the front of get_string_for_annotation (string evaluation, '
+                     'Annotated / qualifier strip, alias step, dispatch), eval_forward_ref_if_needed / typing._eval_type '
+                     '(deep evaluation in the globals of one module; ForwardRef.__forward_module__ for TypedDict keys) and the '
+                     'extras[\'cls\'] switch of load_func_for_dataclass; how Python itself turns source text into annotation '
+                     'objects (typing flattens Annotated[Annotated[..]], TypedDict reads qualifiers) is trusted',
                      'leaf conversions (int/float/str/bool/bytes/date/... loaders) are not modelled: oracle tables computed '
                      'by the implementation at a top-level field'],
     'assumptions': ['NamedTuple fields without defaults; Union alternatives are not dataclasses (C13 covers tagged unions)',
+                    'surface programs: qualifiers only in TypedDict keys, wrappers not directly on Union members (F72), a quoted '
+                    'name is a bare name bound (or not) in the globals of a module; recursive aliases are outside the Gallina '
+                    'model (a core type is a finite tree): direct predicates only',
                     'conforming instances contain no NaN and (F3) no negative timedelta'],
 }
 
 BUDGET = 14
-IMPORTS = ['PyStr', 'V1Base', 'V1Gen', 'V1Errors', 'V1Eval', 'V1Show']
+IMPORTS = ['PyStr', 'V1Base', 'V1Gen', 'V1Errors', 'V1Eval', 'V1Show', 'V1Annot']
 SIMPLE = ['int', 'str', 'float', 'bool']
 ALL_LEAVES = ['str', 'int', 'float', 'bool', 'none', 'nonebare', 'bytes', 'bytearray', 'uuid', 'decimal', 'path', 'date', 'time',
               'datetime', 'timedelta', 'any', 'enum:Color', 'enum:Num']
@@ -291,7 +314,8 @@ def has_neg_td_any(x):
 
 
 REGION_ID = {'F3': 'F3-neg-timedelta-v1', 'F9': 'F9-v1-same-name', 'F28': 'F28-dump-frozenset-in-dict-key',
-             'F52': 'F52-v1-union-none-first', 'F53': 'F53-v1-union-list-before-dict'}
+             'F52': 'F52-v1-union-none-first', 'F53': 'F53-v1-union-list-before-dict',
+             'F70': 'F70-v1-annotation-single-pass', 'F71': 'F71-v1-helper-fwdref-namespace'}
 
 
 def open_region(ctx, reg):
@@ -349,6 +373,335 @@ def predicted_clean(t, model):
     lits = [json.dumps(s['vs']) for s in G.subtypes(t, model) if s['k'] == 'lit']
     uns = [json.dumps(s['ts'], sort_keys=True) for s in G.subtypes(t, model) if s['k'] == 'union']
     return len(set(lits)) <= 1 and len(set(uns)) <= 1
+
+
+
+# ---------------------------------------------------------------------------------- surface cases
+# (annotation-resolution front end: aliases, Annotated, Required / NotRequired / ReadOnly, forward references
+#  inside generics, one-module and two-module programs; Gallina: coq/model/V1Annot.v)
+S_BASES = [
+    ('int', lambda mb: leaf('int')),
+    ('list[int]', lambda mb: seq('list', leaf('int'))),
+    ('D', lambda mb: data(mb.cls([('inner_val', leaf('int')), ('other_name', leaf('str'), 'str0')]))),
+    ('Opt[str]', lambda mb: opt(leaf('str'))),
+    ('NT', lambda mb: mb.named([('aa', leaf('int')), ('bb', leaf('bytes'))])),
+    ('dict[str,date]', lambda mb: dct(leaf('str'), leaf('date'))),
+    ("Lit['a','b']", lambda mb: lit('a', 'b')),
+    ('Color', lambda mb: leaf('enum:Color')),
+    ('tuple[int,str]', lambda mb: tup(leaf('int'), leaf('str'))),
+]
+S_POS = {'field': None, 'list': 'list', 'dictv': 'dictv', 'opt': 'opt', 'tup1': 'tup1', 'named': 'named',
+         'tdreq': 'typedr', 'tdopt': 'typedo', 'data': 'data'}
+S_WRAPS = ['ann', 'alias', 'str', 'Required', 'NotRequired', 'ReadOnly']
+
+
+def stack_legal(stack, pos, base_t):
+    """annotations Python accepts with the meaning the harness intends: qualifiers only in TypedDict keys,
+    at most one of Required / NotRequired, NotRequired visible to TypedDict (through Annotated / qualifiers only)
+    exactly at optional keys; Annotated[Annotated[..]] is not a distinct object (typing flattens it)"""
+    if any(a == 'ann' and b == 'ann' for a, b in zip(stack, stack[1:])):
+        return False
+    quals = [w for w in stack if w in G.QUALS]
+    if quals and pos not in ('tdreq', 'tdopt'):
+        return False
+    if len([q for q in quals if q != 'ReadOnly']) > 1 or quals.count('ReadOnly') > 1:
+        return False
+    visible = []
+    for w in stack:
+        if w == 'ann' or w in G.QUALS:
+            visible.append(w)
+        else:
+            break
+    if pos == 'tdopt' and 'NotRequired' not in visible:
+        return False
+    if pos == 'tdreq' and 'NotRequired' in stack:
+        return False
+    if pos == 'opt' and base_t['k'] == 'opt':
+        return False
+    nstr = list(stack).count('str')
+    if nstr and base_t['k'] == 'leaf' and base_t['l'].startswith('enum:'):
+        # every generated module defines its own Color / Num: a quoted 'Color' below a typing construct is ONE cached
+        # ForwardRef object for the whole interpreter (typing caches Annotated["Color", 1]) and keeps the class of the
+        # first module that evaluated it.  Names of generated classes are unique per model; these two are not.
+        return False
+    if nstr > 2 or (nstr > 1 and base_t['k'] == 'lit'):      # quoting depth of the printed source
+        return False
+    return True
+
+
+def apply_stack(stack, node, model, holder_mod, fresh):
+    """wrap a surface node, innermost wrapper last in `stack`"""
+    for w in reversed(stack):
+        if w == 'ann':
+            node = G.s_ann(node)
+        elif w == 'str':
+            node = G.s_str(node)
+        elif w == 'alias':
+            x = fresh()
+            model['surface']['aliases'][x] = node
+            model['surface']['mod_of']['alias:' + x] = holder_mod
+            node = G.s_alias(x)
+        else:
+            node = G.s_qual(w, node)
+    return node
+
+
+def surface_wrapped(mi, stacks_bases_pos, two_mod, twice=False):
+    """one model whose root has one field per (stack, base, position): the base type, wrapped by the stack,
+    sits at the position.  two_mod: everything lives in module 0 and a new root in module 1 nests the old one."""
+    mb = MB(mi)
+    mb.cls([])
+    fields = []
+    for j, (stack, (bn, bf), pos) in enumerate(stacks_bases_pos):
+        b = bf(mb)
+        b['_hole'] = j + 1
+        t = b if S_POS[pos] is None else CONTEXTS[S_POS[pos]](b, mb)
+        fields.append({'name': G.FIELD_NAMES[j % len(G.FIELD_NAMES)], 'ty': t, 'default': None})
+    mb.m['classes'][0]['fields'] = fields
+    m = mb.m
+    mod_of = None
+    if two_mod:
+        w = mb.cls([('inner_box', data(0)), ('tail_num', leaf('int'), 'int0')])
+        m['root'] = w
+        mod_of = {'data:%d' % i: 0 for i in range(w)}
+        mod_of.update({'named:' + n: 0 for n in m['named']})
+        mod_of.update({'typed:' + n: 0 for n in m['typed']})
+        mod_of['data:%d' % w] = 1
+    G.auto_surface(m, mod_of)
+    n = [0]
+
+    def fresh():
+        n[0] += 1
+        return 'K%dA%d' % (mi, n[0])
+    for j, (stack, _, pos) in enumerate(stacks_bases_pos):
+        for where, holder, idx, sa in G.surface_annotations(m):
+            path = _find_mark(sa, j + 1)
+            if path is None:
+                continue
+            hm = m['surface']['mod_of']['data:%d' % holder] if where == 'cls' else \
+                m['surface']['mod_of']['%s:%s' % (where.split('-')[0], holder)]
+            node = _node_at(sa, path)
+            new = apply_stack(stack, {k: v for k, v in node.items() if k != '_hole'}, m, hm, fresh)
+            if twice and new['k'] == 'ann':
+                new['twice'] = True
+            G.set_annotation(m, where, holder, idx, G.replace_at(sa, path, new))
+            break
+    G.strip_marks(m['classes'])
+    G.strip_marks(m['named'])
+    G.strip_marks(m['typed'])
+    G.strip_marks(m['surface'])
+    m['json'] = True
+    return mb
+
+
+def _find_mark(s, mark):
+    if s.get('_hole') == mark:
+        return []
+    for i, c in enumerate(G.s_children(s)):
+        p = _find_mark(c, mark)
+        if p is not None:
+            return [i] + p
+    return None
+
+
+def _node_at(s, path):
+    for i in path:
+        s = G.s_children(s)[i]
+    return s
+
+
+def all_stacks(max_len):
+    out = []
+    for n in range(1, max_len + 1):
+        out.extend(itertools.product(S_WRAPS, repeat=n))
+    return out
+
+
+def split_lower(m):
+    """classes (other than the root) from which the root is not reachable, with the helpers they use:
+    they can live in a lower module"""
+    n = len(m['classes'])
+    reach = {}
+    for i in range(n):
+        seen, todo = set(), [i]
+        while todo:
+            c = todo.pop()
+            for f in m['classes'][c]['fields']:
+                for s in G.subtypes(f['ty'], m):
+                    if s['k'] == 'data' and s['c'] not in seen:
+                        seen.add(s['c'])
+                        todo.append(s['c'])
+        reach[i] = seen
+    root = m.get('root', 0)
+    lower = [i for i in range(n) if i != root and root not in reach[i] and i in reach[root]]
+    mod_of = {'data:%d' % i: (0 if i in lower else 1) for i in range(n)}
+    used_low, used_up = set(), set()
+    for i in range(n):
+        for f in m['classes'][i]['fields']:
+            for s in G.subtypes(f['ty'], m):
+                if s['k'] in ('named', 'typed'):
+                    (used_low if i in lower else used_up).add('%s:%s' % (s['k'], s['name']))
+    for k in list(m['named']) + list(m['typed']):
+        pass
+    for it in ['named:' + x for x in m['named']] + ['typed:' + x for x in m['typed']]:
+        mod_of[it] = 0 if it in used_low else 1
+    return lower, mod_of
+
+
+def helper_refs_ok(m, mod_of):
+    """no helper of the lower module refers to something of the upper one"""
+    for it, mm in mod_of.items():
+        kind, x = it.split(':', 1)
+        if kind == 'data' or mm != 0:
+            continue
+        items = m['named'][x] if kind == 'named' else m['typed'][x]['req'] + m['typed'][x]['opt']
+        for _, t in items:
+            for s in G.subtypes(t, m):
+                it2 = G.item_of(s)
+                if it2 and mod_of.get(it2) == 1:
+                    return False
+    return True
+
+
+def split_modules(mb, variant):
+    """turn a one-module case into a two-module program: the classes below the root that do not refer back to
+    it (and their helpers) move to a lower module, where EVERY dataclass reference in a dataclass field is a
+    quoted name inside its generic; the upper module imports the lower one as a module only (variant 0/2)
+    or also its names (variant 1).  Returns False when the case has nothing to split."""
+    m = mb.m
+    if m.get('named_alias') or m.get('load_meta') or any(c.get('meta') for c in m['classes']) or m.get('surface'):
+        return False
+    if any(f.get('path') or f.get('alias') for c in m['classes'] for f in c['fields']):
+        return False
+    lower, mod_of = split_lower(m)
+    if not lower or not helper_refs_ok(m, mod_of):
+        return False
+    names = [m['classes'][i]['name'] for i in lower] + [it.split(':', 1)[1] for it, mm in mod_of.items()
+                                                         if mm == 0 and not it.startswith('data:')]
+    G.auto_surface(m, mod_of, fwd_mods=(0,), imports={1: names} if variant == 1 else None, tg=(variant == 2))
+    surf = m['surface']
+    if any(x['k'] == 'str' for ss in surf['named'].values() for s in ss for x in _walk(s)) or \
+            any(x['k'] == 'str' for d in surf['typed'].values() for s in d['req'] + d['opt'] for x in _walk(s)):
+        del m['surface']        # a quoted name inside a NamedTuple / TypedDict: namespace of the enclosing dataclass (F71)
+        return False
+    m.pop('ann_style', None)
+    return True
+
+
+def _walk(s):
+    yield s
+    for c in G.s_children(s):
+        yield from _walk(c)
+
+
+def json_alias_model(mi, where):
+    """the recursive alias `type J = str | int | float | bool | dict[str, J] | list[J] | None` (outside the
+    Gallina model: a core type is a finite tree), used at a field, inside containers, under Annotated and under
+    the TypedDict qualifiers.  Core = the alias unfolded twice (values of the unfolding conform to the alias)."""
+    mb = MB(mi)
+    scal = [leaf('str'), leaf('int'), leaf('float'), leaf('bool')]
+    j0 = union(*scal, leaf('none'))
+    j1 = union(*scal, dct(leaf('str'), j0), seq('list', j0), leaf('none'))
+    j2 = union(*scal, dct(leaf('str'), j1), seq('list', j1), leaf('none'))
+    x = 'K%dJ' % mi
+    ja = G.s_alias(x)
+    td = mb.typed([('name', leaf('str')), ('value', copy.deepcopy(j2))], [('payload', copy.deepcopy(j2))])
+    spec = {'field': ([('alpha', copy.deepcopy(j2)), ('beta_val', seq('list', copy.deepcopy(j2)))],
+                      [ja, seq('list', ja)]),
+            'ann': ([('alpha', copy.deepcopy(j2)), ('beta_val', dct(leaf('str'), copy.deepcopy(j2))), ('gamma2', opt(copy.deepcopy(j1)))],
+                    [G.s_ann(ja), dct(leaf('str'), G.s_ann(ja)), opt(G.s_ann(ja))]),
+            'typed': ([('alpha', seq('list', td)), ('beta_val', dct(leaf('str'), td))],
+                      [seq('list', td), dct(leaf('str'), td)])}[where]
+    mb.cls(spec[0])
+    m = mb.m
+    G.auto_surface(m)
+    surf = m['surface']
+    surf['aliases'][x] = union(*scal, dct(leaf('str'), ja), seq('list', ja), leaf('none'))
+    surf['aliases'][x]['bar'] = where != 'ann'
+    surf['mod_of']['alias:' + x] = 0
+    surf['recursive_alias'] = True
+    surf['cls'][0] = spec[1]
+    surf['typed'][td['name']] = {'req': [leaf('str'), G.s_qual('Required', ja)], 'opt': [G.s_qual('NotRequired', ja)], 'total': True}
+    return mb
+
+
+def helper_ns_model(mi, kind, reach_low_first):
+    """F71 (open): a NamedTuple / TypedDict of the lower module whose own annotation quotes a name of the lower
+    module (list['Leaf']), used by a dataclass of the upper module, where that name is not bound"""
+    mb = MB(mi)
+    mb.cls([])
+    lf = mb.cls([('leaf_val', leaf('int'))])
+    h = mb.named([('aa', leaf('int')), ('ls', seq('list', data(lf)))]) if kind == 'named' else \
+        mb.typed([('aa', leaf('int')), ('ls', seq('list', data(lf)))], [])
+    fields = [('alpha', h), ('beta_val', leaf('int'))]
+    mod_of = {'data:0': 1, 'data:%d' % lf: 0, '%s:%s' % (h['k'], h['name']): 0}
+    if reach_low_first:          # the helper is generated first below a dataclass of the LOWER module: well scoped
+        box = mb.cls([('boxed', h)])
+        mod_of['data:%d' % box] = 0
+        fields = [('alpha', data(box)), ('beta_val', leaf('int'))]
+    mb.m['classes'][0]['fields'] = [{'name': n, 'ty': t, 'default': None} for n, t in fields]
+    G.auto_surface(mb.m, mod_of)
+    surf = mb.m['surface']
+    sl = seq('list', G.s_str(data(lf)))
+    if kind == 'named':
+        surf['named'][h['name']][1] = sl
+    else:
+        surf['typed'][h['name']]['req'][1] = sl
+    return mb
+
+
+def surface_cases(ctx, mi):
+    r = ctx.sub_rng('surface')
+    quick = ctx.tier == 'quick'
+    out = []
+
+    def nxt():
+        mi[0] += 1
+        return mi[0]
+
+    nb, positions = len(S_BASES), list(S_POS)
+    stacks = all_stacks(2)
+    three = all_stacks(3)[len(stacks):]
+    r.shuffle(three)
+    stacks = stacks + three[:(40 if quick else len(three))]
+    combos = []
+    k = 0
+    for st in stacks:
+        tdpos = ['tdreq', 'tdopt'] if any(w in G.QUALS for w in st) else positions
+        if quick:
+            picks = [(S_BASES[(k * 2 + j) % nb], tdpos[(k + 3 * j) % len(tdpos)]) for j in range(2)]
+        else:
+            picks = [(S_BASES[(k + j) % nb], p) for j, p in enumerate(tdpos)] + \
+                    [(S_BASES[(k * 2 + 1 + j) % nb], p) for j, p in enumerate(tdpos)]
+        k += 1
+        for (b, pos) in picks:
+            if stack_legal(st, pos, b[1](MB(0))):
+                combos.append((st, b, pos))
+    # probe every combination on its own to learn whether the single pass handles it (Python mirror of the
+    # model); the ones it handles are packed five per class, the others keep a class of their own
+    good, bad = [], []
+    for cb in combos:
+        probe = surface_wrapped(0, [cb], False)
+        (bad if G.surface_verdict(probe.m) else good).append(cb)
+    ci = 0
+    for i in range(0, len(good), 5):
+        pack = good[i:i + 5]
+        two = (ci % 2 == 1)
+        out.append(('surf:%s[%s]' % ('2mod' if two else '1mod', ' + '.join('%s<%s>@%s' % ('.'.join(st), b[0], pos) for st, b, pos in pack)),
+                    surface_wrapped(nxt(), pack, two, twice=(ci % 3 == 2))))
+        ci += 1
+    for j, cb in enumerate(bad):
+        st, b, pos = cb
+        out.append(('surf:%s[%s<%s>@%s]' % ('2mod' if j % 2 else '1mod', '.'.join(st), b[0], pos), surface_wrapped(nxt(), [cb], bool(j % 2))))
+    # the recursive JSON alias (direct predicates only)
+    for where in ('field', 'ann', 'typed'):
+        out.append(('surf:json-alias@%s' % where, json_alias_model(nxt(), where)))
+    # helper types that quote names of their own module, used from another module (F71) and the neighbour
+    # in which the helper is first generated below a dataclass of its own module
+    for kind in ('named', 'typed'):
+        out.append(('surf:F71:%s-from-upper' % kind, helper_ns_model(nxt(), kind, False)))
+        out.append(('surf:%s-below-lower-class' % kind, helper_ns_model(nxt(), kind, True)))
+    return out
 
 
 def build_cases(ctx):
@@ -490,8 +843,19 @@ def build_cases(ctx):
             cases.append(('tagged:%s(U[A,B])#%d' % (wrap, variant), mbx))
     # explicit shapes
     cases.extend(explicit_models(mi, r))
+    # two-module programs: every third case that has a nested class not referring back to the root is split
+    nsplit = 0
+    for label, mb in list(cases):
+        if len(mb.m['classes']) > 1 and not label.startswith(('tagged:', 'F9:')):
+            nsplit += 1
+            if nsplit % 3 == 0 and split_modules(mb, (nsplit // 3) % 3):
+                mb.split = True
+    n_before_surface = len(cases)
+    cases.extend(surface_cases(ctx, mi))
     # annotation styles: plain names / every dataclass reference a string / `from __future__ import annotations`
     for ci, (label, mb) in enumerate(cases):
+        if mb.m.get('surface'):
+            continue
         st = ['plain', 'fwd', 'future'][ci % 3]
         if st == 'future' and any(d['opt'] for d in mb.m['typed'].values()):
             st = 'fwd'      # NotRequired[...] cannot be seen inside string annotations (typing limitation)
@@ -503,7 +867,7 @@ def build_cases(ctx):
     hn = 0
     for label, mb in cases:
         m = mb.m
-        if len(m['classes']) > 1 and m['classes'][1]['fields'] and not m.get('named_alias') \
+        if len(m['classes']) > 1 and m['classes'][1]['fields'] and not m.get('named_alias') and not label.startswith('surf:') \
                 and all(predicted_clean(f['ty'], m) and json_keys_ok(f['ty'], m) for f in m['classes'][1]['fields']):
             hn += 1
             if hn % 2 == 0 or m.get('history_kind'):
@@ -646,19 +1010,32 @@ def coq_exprs(cases, impl):
     """prelude definitions + expressions; returns (prelude, exprs, index)"""
     pre, exprs, index = [], [], []
     for ci, ((label, mb), res) in enumerate(zip(cases, impl)):
-        if res.get('setup_err') or 'keys' not in res or res.get('gen_err'):
+        if res.get('setup_err') or 'keys' not in res:
             continue
         m = mb.m
+        surface = bool(m.get('surface'))
+        if res.get('gen_err') and not surface:
+            continue
         try:
             ct = G.coq_ct(m, res['keys'])
+            senv = G.coq_senv(m, res['keys']) if surface else None
         except ValueError:
             continue          # outside the Gallina model: direct predicates only
         try:
             tb = G.coq_oracle([(l, o, v, a) for l, o, v, a in res['oracle']])
         except ValueError:
             tb = '[]'
-        exprs.append('(let ct := %s in case_gen ct %d)' % (ct, m['root']))
-        index.append((ci, 'gen', None))
+        if surface:
+            # the whole pipeline of the model: surface program -> resolve / walk -> class table -> generator;
+            # `ct` (written by the harness from the core model) is only what the result is compared with
+            exprs.append('(let E := %s in case_sgen E %d %s)' % (senv, m['root'], ct))
+            index.append((ci, 'sgen', None))
+            ct = '(force_table %s %d)' % (senv, m['root'])
+            if res.get('gen_err'):
+                continue
+        else:
+            exprs.append('(let ct := %s in case_gen ct %d)' % (ct, m['root']))
+            index.append((ci, 'gen', None))
         for ii, inst in enumerate(res['inst']):
             if 'doc' in inst:
                 try:
@@ -741,7 +1118,7 @@ def run(ctx):
     for i in range(0, len(cases), CH):
         impl.extend(ctx.impl('c02', {'models': payload['models'][i:i + CH]}, timeout=900)['models'])
     # ---- model side
-    gens, loads = {}, {}
+    gens, loads, sgens = {}, {}, {}
     model_ok = True
     try:
         prelude, exprs, index = coq_exprs(cases, impl)
@@ -752,6 +1129,10 @@ def run(ctx):
         for (ci, kind, ii), o in zip(index, outs):
             if kind == 'gen':
                 gens[ci] = G.parse_gen(o)
+            elif kind == 'sgen':
+                sgens[ci] = G.parse_sgen(o)
+                if 'gen' in sgens[ci]:
+                    gens[ci] = sgens[ci]['gen']
             else:
                 parts = o.split('#')
                 loads[(ci, ii)] = {'code': G.parse_res(parts[0], cases[ci][1].m), 'spec': G.parse_res(parts[1], cases[ci][1].m)}
@@ -778,10 +1159,46 @@ def run(ctx):
         region = classify(mb, gen, None)
         py_region = classify_py(mb)
         tie_ok = model_ok and py_region not in RESOLVED
+        # ---- surface programs: the front end of the model against the implementation
+        sv = sreg = None
+        if m.get('surface'):
+            ctx.hist('surface', '%d module(s)%s' % (m['surface']['n_mod'], ', typing generics' if m['surface'].get('tg') else ''))
+            for _, _, _, sa in G.surface_annotations(m):
+                for x in _walk(sa):
+                    if x['k'] in ('ann', 'qual', 'alias', 'str'):
+                        ctx.hist('wrapper', x['q'] if x['k'] == 'qual' else x['k'])
+            sv = G.surface_verdict(m)          # Python mirror of the single pass: None | (kind, why, in_helper, class)
+            if sv:
+                sreg = 'F70' if sv[0] == 'type' else 'F71' if sv[2] else None
+                tie_ok = tie_ok and sreg not in RESOLVED
+            sg = sgens.get(ci)
+            if model_ok and sg is not None and sreg not in RESOLVED:      # (a resolved finding: the model is faithful to the defect)
+                ctx.traces_validated += 1
+                if ('reserr' in sg) != bool(sv):
+                    ctx.broken_tie('front-end model (V1Annot.resolve) and its Python mirror disagree (%s)' % label,
+                                   {'model': sg.get('raw', 'resolves'), 'mirror': sv})
+                if 'reserr' in sg and not res['gen_err']:
+                    ctx.disagreements_checked += 1
+                    ctx.broken_tie('front-end model fails (%s) where the implementation builds the loader (%s)' % (sg['raw'], label),
+                                   {'sources': (res.get('sources') or [''])[-1][-1500:]})
+                if 'reserr' not in sg and not sg['same']:
+                    ctx.broken_tie('resolved class table differs from the denotation written by the harness (%s)' % label)
+                if 'reserr' not in sg and res['gen_err'] and not sreg:
+                    ctx.disagreements_checked += 1
+                    ctx.broken_tie('front-end model resolves where the implementation fails (%s)' % label, res['gen_err'])
+                ctx.hist('front_end', 'model fails' if 'reserr' in sg else 'resolves, inside okb' if sg['inok'] else 'resolves, outside okb')
         # ---- direct predicate 1: loader generation never raises
         if res['gen_err']:
-            ctx.violation('v1 loader generation raised %s for %s: %s' % (res['gen_err']['err'], label, res['gen_err']['msg'][:200]), rp_model)
+            if sreg and open_region(ctx, sreg) and \
+                    res['gen_err']['err'] == ('NameError' if sreg == 'F71' else res['gen_err']['err']):
+                ctx.hist('known_region', sreg)
+                ctx.count(1, key='g:%s' % label, nontrivial=True)
+            else:
+                ctx.violation('v1 loader generation raised %s for %s: %s' % (res['gen_err']['err'], label, res['gen_err']['msg'][:200]), rp_model)
             continue
+        if sreg and open_region(ctx, sreg) and model_ok:
+            # inside the region of an open finding, yet the loader builds: the finding's witness decides (FINDING-RESOLVED)
+            ctx.hist('known_region_builds', sreg)
         if tie_ok and gen is not None and 'err' in gen:
             ctx.broken_tie('model generator fails where the implementation generates (%s)' % label, gen['err'])
         # ---- direct predicate 2: generated code reads no unbound positional variable (hook H1)
